@@ -154,6 +154,27 @@ func c07Scenario(env string, cnt int, srt, ci bool, run string, tests []shape2, 
 	return sc
 }
 
+// c07Varying: a test whose number of calls differs between the executions of
+// one process (-count > 1): 3 calls first, then 2 (and the reverse).
+func c07Varying(env string, emit func(c07Case)) {
+	three := []vfCall{{API: "snap", Val: "v1"}, {API: "snap", Val: "v2"}, {API: "snap", Val: "v3"}}
+	two := three[:2]
+	for _, cnt := range []int{2, 3} {
+		for _, rev := range []bool{false, true} {
+			for _, srt := range []bool{false, true} {
+				a, b := three, two
+				if rev {
+					a, b = two, three
+				}
+				sc := c07Scenario(env, cnt, srt, false, "", []shape2{{"TestVar", three}, {"TestB", three[:1]}}, true)
+				sc.Tests = []vfTestExec{{Name: "TestVar", Calls: a}, {Name: "TestB", Calls: three[:1]}}
+				sc.Tests2 = []vfTestExec{{Name: "TestVar", Calls: b}, {Name: "TestB", Calls: three[:1]}}
+				emit(c07Case{Sc: sc})
+			}
+		}
+	}
+}
+
 func c07Run(c *vfCtx, cs c07Case) {
 	sc := cs.Sc
 	if sc.Env != os.Getenv("UPDATE_SNAPS") {
@@ -169,6 +190,10 @@ func c07Run(c *vfCtx, cs c07Case) {
 		if !strings.HasPrefix(t.Name, "Test") {
 			class = "K6-non-Test-id-dropped-on-rewrite"
 		}
+	}
+	if sc.Tests2 != nil {
+		// K9: the number of calls of a test differs between the executions of this process
+		class = "K9-call-count-differs-between-executions"
 	}
 	// the model and the implementation must agree on what each call did (JSON
 	// calls have an opaque format: only pass/fail-before-read is compared)
@@ -260,6 +285,9 @@ func c07Run(c *vfCtx, cs c07Case) {
 	m2 := vfNewModel(true, "")
 	obs2 := vfRunTests(o.dir, m2, sc.Tests)
 	c.count("transitions", int64(len(obs2)))
+	if sc.Tests2 != nil {
+		return // the follow-up run below replays sc.Tests only; K9 cases stop at the Clean verdicts
+	}
 	first := o.callObs[:len(obs2)]
 	for i, co := range obs2 {
 		if first[i].Got == "pass" && co.Got != "pass" {
@@ -274,5 +302,6 @@ func init() {
 		c.rule = "pairs of tests from the name alphabet x 7 call shapes (multi-entry over two files, standalone, failing calls that still consume their ordinal) x -count 1..3 x sort x CI x -run {none, anchored alternation}, " +
 			"pre-existing directory with the addressed entries plus stale ones, in each UPDATE_SNAPS process; all cases distinct and non-trivial"
 		c07Gen(c, emit)
+		c07Varying(os.Getenv("UPDATE_SNAPS"), emit)
 	}, c07Run)
 }
